@@ -4,7 +4,11 @@ CONSTANTS
  G = 2
  MaxNow = 2
  MaxGen = 1
- TtlSets <- TS_q
-INVARIANTS TypeOK EntryFresh Fresh NoCachedFailure MutualExclusion LockHeld
+ TtlSets <- TS_two
+ Evicts = TRUE
+ MaxObj = 2
+CONSTRAINT ObjBound
+ACTION_CONSTRAINT CancelLate
+INVARIANTS TypeOK EntryFresh Fresh NoCachedFailure MutualExclusion LockHeld KeyOK ServedFromCache
 CHECK_DEADLOCK FALSE
 VIEW ViewNoLast
